@@ -296,7 +296,11 @@ func (w *world) describe(c *client) string {
 
 // mustFail: the only continuation that keeps every select single-ready is a failed write.
 func (w *world) mustFail(c *client) bool {
-	return c.stalled || (c.cancelled && w.inflight(c) > 0)
+	// owed, not inflight: whether an owed event already sits in some per-client queue or is
+	// still with a delivery goroutine that has not run is the implementation's business, and a
+	// client that returns to its select with both its context done and an event ready would
+	// make the next step the Go runtime's choice
+	return c.stalled || (c.cancelled && w.owed(c) > 0)
 }
 
 func (w *world) release(c *client) {
@@ -393,7 +397,7 @@ func (w *world) run() {
 							w.k.Count("fault_stall", 1)
 							w.note("stall %s", c.name)
 						}})
-						if w.inflight(c) == 0 {
+						if w.owed(c) == 0 {
 							acts = append(acts, act{wCancel, func() {
 								c.cancelled = true
 								w.k.Count("fault_cancel_in_write", 1)
